@@ -245,4 +245,348 @@ Proof.
       * apply IH; [auto|symmetry; exact RQ|intros; discriminate].
 Qed.
 
+Lemma vout_in_range : forall v a, v_out_edge d v = Some a -> a < n.
+Proof.
+  intros v a H. destruct (lt_dec v (length (d_verts d))) as [L|L].
+  - exact (dw_vout_rng d W v L a H).
+  - unfold v_out_edge in H. rewrite nth_overflow in H by lia. discriminate.
+Qed.
+
+Lemma locate_from_closest_sound_aux : forall closest, Sound (locate_from_closest pts d q closest).
+Proof.
+  intros closest. unfold locate_from_closest.
+  destruct (v_out_edge d closest) as [e0|] eqn:V; [|exact I].
+  apply locate_loop_sound_aux; [exact (vout_in_range _ _ V)|reflexivity|intros _; reflexivity].
+Qed.
+
+Lemma locate_with_hint_sound_aux : forall hint, Sound (locate_with_hint pts d q hint).
+Proof.
+  intros hint. unfold locate_with_hint.
+  destruct (walk_to_nearest pts d q (if hint <? Raw.num_vertices d then hint else 0)) as [c|]; [|exact I].
+  apply locate_from_closest_sound_aux.
+Qed.
+
+(* ================================================================================================ *)
+(* PART 4.  the conclusion through Obs.QueryProp.LocSpec                                             *)
+(* ================================================================================================ *)
+
+Definition lres_to_locres (r : lres) : locres :=
+  match r with
+  | ROnVertex v => LVertex v
+  | ROnEdge e => LEdge e
+  | ROnFace f => LFace f
+  | ROutside e => LOutside e
+  | RPanic => LNone
+  end.
+
+(* q strictly left of the three sides of the triangle of x: the same holds read from the face's adjacent edge *)
+Lemma tri_all : forall x a, x < n -> inner d x ->
+  (0 < osd x)%Z -> (0 < osd (e_next d x))%Z -> (0 < osd (e_prev d x))%Z ->
+  f_adjacent d (e_face d x) = Some a ->
+  a < n /\ inner d a /\ (0 < osd a)%Z /\ (0 < osd (e_next d a))%Z /\ (0 < osd (e_prev d a))%Z.
+Proof.
+  intros x a Hx Ix L0 L1 L2 Ha.
+  pose proof (dw_face_lt d W x Hx) as Lf.
+  assert (La : a < n) by (apply (dw_adj_rng d W (e_face d x) Lf a Ha)).
+  assert (Fa : e_face d a = e_face d x).
+  { pose proof (dw_fptr d W (e_face d x) Lf) as Q. rewrite Ha in Q. exact Q. }
+  assert (Ia : inner d a) by (unfold inner; rewrite Fa; exact Ix).
+  split; [exact La|]. split; [exact Ia|].
+  destruct (dw_tri_facts d x W Hx Ix) as (_ & _ & A1 & A2 & A3 & A4 & _).
+  destruct (dw_same_face d W x a Hx La Ix Fa) as [-> | [-> | ->]].
+  - auto.
+  - rewrite A1, A3. auto.
+  - rewrite A2, A4. auto.
+Qed.
+
+Lemma Sound_LocSpec : forall r, Sound r -> r <> RPanic -> LocSpec (obs_of_dcel d) pts q (lres_to_locres r).
+Proof.
+  intros [v|e|f|e|] S NP; cbn [lres_to_locres LocSpec]; cbn [Sound] in S.
+  - exact S.
+  - destruct S as (He & _ & _ & _ & SB). split; [exact He|].
+    apply strictly_between_spec in SB. exact SB.
+  - destruct S as (Nf & e & He & Fe & L0 & L1 & L2). subst f.
+    assert (Ie : inner d e) by exact Nf.
+    pose proof (dw_face_lt d W e He) as Lf.
+    split; [unfold inner_face; rewrite obs_nF; lia|].
+    pose proof (dw_fptr d W (e_face d e) Lf) as Q.
+    destruct (f_adjacent d (e_face d e)) as [a|] eqn:Ha; [|lia].
+    destruct (tri_view e He Ie) as (T1 & T2 & T3 & _).
+    assert (M0 : (0 < osd e)%Z) by exact L0.
+    assert (M1 : (0 < osd (e_next d e))%Z) by (unfold osd; rewrite T2, <- T1; exact L1).
+    assert (M2 : (0 < osd (e_prev d e))%Z) by (unfold osd; rewrite T3; exact L2).
+    destruct (tri_all e a He Ie M0 M1 M2 Ha) as (La & Ia & K0 & K1 & K2).
+    destruct (tri_view a La Ia) as (U1 & U2 & U3 & _).
+    unfold tri_a, tri_b, tri_c, face_tri. rewrite obs_adj, Ha. cbn [fst snd].
+    change (eorg (obs_of_dcel d) pts a) with (P (e_origin d a)).
+    change (eorg (obs_of_dcel d) pts (next (obs_of_dcel d) a)) with (P (e_origin d (e_next d a))).
+    change (eorg (obs_of_dcel d) pts (next (obs_of_dcel d) (next (obs_of_dcel d) a)))
+      with (P (e_origin d (e_next d (e_next d a)))).
+    rewrite (dw_next_next d W a La Ia).
+    unfold osd in K0, K1, K2. rewrite U1 in K0. rewrite U2 in K1. rewrite U3 in K2. auto.
+  - destruct S as (He & Fe & L0). split; [split; assumption|]. split; intros _; [exact L0|left; exact L0].
+  - congruence.
+Qed.
+
 End Sound.
+
+(* ------------------------------------------------------------------ the theorems, as stated *)
+
+Theorem locate_loop_sound : forall pts d q k e0 q0 rot r,
+  DWf d -> FacesCcw (obs_of_dcel d) pts -> e0 < length (d_hedges d) ->
+  q0 = side_of pts d q e0 -> (is_on q0 = false -> rot = left_or_on q0) ->
+  locate_loop pts d q k e0 q0 rot = r ->
+  match r with
+  | ROnVertex v => v < Raw.num_vertices d /\ vpos pts v = q
+  | ROnFace f => f <> 0 /\ exists e, e < length (d_hedges d) /\ e_face d e = f /\
+      (0 < orient (vpos pts (e_origin d e)) (vpos pts (e_to d e)) q)%Z /\
+      (0 < orient (vpos pts (e_to d e)) (vpos pts (apex d e)) q)%Z /\
+      (0 < orient (vpos pts (apex d e)) (vpos pts (e_origin d e)) q)%Z
+  | ROnEdge e => e < length (d_hedges d) /\
+      orient (vpos pts (e_origin d e)) (vpos pts (e_to d e)) q = 0%Z /\
+      vpos pts (e_origin d e) <> q /\ vpos pts (e_to d e) <> q /\
+      strictly_between (vpos pts (e_origin d e)) (vpos pts (e_to d e)) q = true
+  | ROutside e => e < length (d_hedges d) /\ e_face d e = 0 /\
+      (0 < orient (vpos pts (e_origin d e)) (vpos pts (e_to d e)) q)%Z
+  | RPanic => True
+  end.
+Proof.
+  intros pts d q k e0 q0 rot r Wf FC He Hq Hr <-.
+  apply DWf_DW in Wf.
+  exact (locate_loop_sound_aux pts d q Wf (faces_ccw_edges pts d Wf FC) k e0 q0 rot He Hq Hr).
+Qed.
+
+Theorem locate_from_closest_sound : forall pts d q closest r,
+  DWf d -> FacesCcw (obs_of_dcel d) pts ->
+  locate_from_closest pts d q closest = r -> Sound pts d q r.
+Proof.
+  intros pts d q closest r Wf FC <-. apply DWf_DW in Wf.
+  exact (locate_from_closest_sound_aux pts d q Wf (faces_ccw_edges pts d Wf FC) closest).
+Qed.
+
+Theorem locate_with_hint_sound : forall pts d q hint r,
+  DWf d -> FacesCcw (obs_of_dcel d) pts ->
+  locate_with_hint pts d q hint = r -> Sound pts d q r.
+Proof.
+  intros pts d q hint r Wf FC <-. apply DWf_DW in Wf.
+  exact (locate_with_hint_sound_aux pts d q Wf (faces_ccw_edges pts d Wf FC) hint).
+Qed.
+
+(* Sound is, by definition, the conclusion of locate_loop_sound *)
+Lemma Sound_unfold : forall pts d q r,
+  Sound pts d q r =
+  match r with
+  | ROnVertex v => v < Raw.num_vertices d /\ vpos pts v = q
+  | ROnFace f => f <> 0 /\ exists e, e < length (d_hedges d) /\ e_face d e = f /\
+      (0 < orient (vpos pts (e_origin d e)) (vpos pts (e_to d e)) q)%Z /\
+      (0 < orient (vpos pts (e_to d e)) (vpos pts (apex d e)) q)%Z /\
+      (0 < orient (vpos pts (apex d e)) (vpos pts (e_origin d e)) q)%Z
+  | ROnEdge e => e < length (d_hedges d) /\
+      orient (vpos pts (e_origin d e)) (vpos pts (e_to d e)) q = 0%Z /\
+      vpos pts (e_origin d e) <> q /\ vpos pts (e_to d e) <> q /\
+      strictly_between (vpos pts (e_origin d e)) (vpos pts (e_to d e)) q = true
+  | ROutside e => e < length (d_hedges d) /\ e_face d e = 0 /\
+      (0 < orient (vpos pts (e_origin d e)) (vpos pts (e_to d e)) q)%Z
+  | RPanic => True
+  end.
+Proof. reflexivity. Qed.
+
+(* every non-panic answer of the model satisfies the declarative specification of point location (C09) *)
+Theorem locate_result_matches_LocSpec : forall pts d q hint r,
+  DWf d -> FacesCcw (obs_of_dcel d) pts ->
+  locate_with_hint pts d q hint = r -> r <> RPanic ->
+  LocSpec (obs_of_dcel d) pts q (lres_to_locres r).
+Proof.
+  intros pts d q hint r Wf FC E NP.
+  pose proof (locate_with_hint_sound pts d q hint r Wf FC E) as S.
+  apply DWf_DW in Wf.
+  exact (Sound_LocSpec pts d q Wf (faces_ccw_edges pts d Wf FC) r S NP).
+Qed.
+
+Theorem locate_loop_matches_LocSpec : forall pts d q k e0 q0 rot r,
+  DWf d -> FacesCcw (obs_of_dcel d) pts -> e0 < length (d_hedges d) ->
+  q0 = side_of pts d q e0 -> (is_on q0 = false -> rot = left_or_on q0) ->
+  locate_loop pts d q k e0 q0 rot = r -> r <> RPanic ->
+  LocSpec (obs_of_dcel d) pts q (lres_to_locres r).
+Proof.
+  intros pts d q k e0 q0 rot r Wf FC He Hq Hr E NP.
+  pose proof (locate_loop_sound pts d q k e0 q0 rot r Wf FC He Hq Hr E) as S.
+  apply DWf_DW in Wf.
+  exact (Sound_LocSpec pts d q Wf (faces_ccw_edges pts d Wf FC) r S NP).
+Qed.
+
+(* ================================================================================================ *)
+(* PART 5.  the greedy walk to a local minimum of the distance to q                                  *)
+(* ================================================================================================ *)
+
+Lemma filter_length_le : forall A (f g : A -> bool) l,
+  (forall y, f y = true -> g y = true) -> length (filter f l) <= length (filter g l).
+Proof.
+  intros A f g l H. induction l as [|h t IH]; cbn [filter]; [lia|].
+  destruct (f h) eqn:F.
+  - rewrite (H h F). cbn [length]. lia.
+  - destruct (g h); cbn [length]; lia.
+Qed.
+
+Lemma filter_length_lt : forall A (f g : A -> bool) l x,
+  (forall y, f y = true -> g y = true) -> In x l -> g x = true -> f x = false ->
+  length (filter f l) < length (filter g l).
+Proof.
+  intros A f g l x H. induction l as [|h t IH]; intros I G F; [destruct I|].
+  cbn [filter]. destruct I as [->|I].
+  - rewrite F, G. cbn [length]. pose proof (filter_length_le A f g t H). lia.
+  - specialize (IH I G F). destruct (f h) eqn:Fh.
+    + rewrite (H h Fh). cbn [length]. lia.
+    + destruct (g h); cbn [length]; lia.
+Qed.
+
+Lemma circ_iter_in_range : forall (f : nat -> nat) m, (forall e, e < m -> f e < m) ->
+  forall fuel cur final l, cur < m -> circ_iter f fuel cur final = Some l -> forall e, In e l -> e < m.
+Proof.
+  intros f m Hf. induction fuel as [|k IH]; intros cur final l Hc E e I; cbn [circ_iter] in E; [discriminate|].
+  destruct (f cur =? final).
+  - injection E as <-. destruct I as [<-|[]]. exact Hc.
+  - destruct (circ_iter f k (f cur) final) as [l'|] eqn:R; [|discriminate].
+    injection E as <-. destruct I as [<-|I]; [exact Hc|].
+    exact (IH (f cur) final l' (Hf cur Hc) R e I).
+Qed.
+
+Section Walk.
+Variable pts : list pnt.
+Variable d : dcel.
+Variable q : pnt.
+Notation P := (vpos pts).
+Notation n := (length (d_hedges d)).
+Notation nv := (Raw.num_vertices d).
+
+Definition dq (v : nat) : Z := dist2 (P v) q.
+
+(* number of vertices strictly closer to q than c *)
+Definition closer_count (c : Z) : nat := length (filter (fun v => (dq v <? c)%Z) (seq 0 nv)).
+
+Lemma closer_count_le : forall c, closer_count c <= nv.
+Proof.
+  intros c. unfold closer_count.
+  pose proof (filter_length_le nat (fun v => (dq v <? c)%Z) (fun _ => true) (seq 0 nv) (fun _ _ => eq_refl)) as H.
+  assert (E : filter (fun _ : nat => true) (seq 0 nv) = seq 0 nv).
+  { generalize (seq 0 nv). induction l as [|h t IH]; cbn [filter]; [reflexivity|rewrite IH; reflexivity]. }
+  rewrite E, seq_length in H. exact H.
+Qed.
+
+Lemma closer_count_lt : forall u v, u < nv -> (dq u < dq v)%Z -> closer_count (dq u) < closer_count (dq v).
+Proof.
+  intros u v Hu L. unfold closer_count.
+  apply filter_length_lt with (x := u).
+  - intros y Hy. apply Z.ltb_lt in Hy. apply Z.ltb_lt. lia.
+  - apply in_seq. lia.
+  - apply Z.ltb_lt. exact L.
+  - apply Z.ltb_ge. lia.
+Qed.
+
+(* local minimum: no fuel or well-formedness involved *)
+Lemma walk_local_min_aux : forall k cur v,
+  walk pts d q k cur (dq cur) = Some v ->
+  forall e, In e (Locate.out_edges_of d v) -> (dq v <= dq (e_to d e))%Z.
+Proof.
+  induction k as [|k IH]; intros cur v E e I; cbn [walk] in E; [discriminate|].
+  destruct (find (fun e => (dist2 (P (e_to d e)) q <? dq cur)%Z) (Locate.out_edges_of d cur)) as [e'|] eqn:F.
+  - exact (IH (e_to d e') v E e I).
+  - injection E as <-. pose proof (find_none _ _ F e I) as X. cbv beta in X.
+    apply Z.ltb_ge in X. exact X.
+Qed.
+
+Theorem walk_local_min : forall start v,
+  walk_to_nearest pts d q start = Some v ->
+  forall e, In e (Locate.out_edges_of d v) -> (dist2 (P v) q <= dist2 (P (e_to d e)) q)%Z.
+Proof.
+  intros start v E e I. unfold walk_to_nearest in E.
+  destruct (pnt_eqb (P start) q) eqn:V.
+  - injection E as <-. apply pnt_eqb_spec in V. rewrite V.
+    assert (Z0 : dist2 q q = 0%Z) by (apply dist2_zero_iff; reflexivity).
+    rewrite Z0. apply dist2_nonneg.
+  - exact (walk_local_min_aux _ _ _ E e I).
+Qed.
+
+Hypothesis W : DW d.
+
+Lemma out_edges_in_range : forall v e, In e (Locate.out_edges_of d v) -> e < n.
+Proof.
+  intros v e I. unfold Locate.out_edges_of in I.
+  destruct (v_out_edge d v) as [a|] eqn:V; [|destruct I].
+  destruct (circ_iter (d_ccw d) (num_directed_edges d) a a) as [l|] eqn:C; [|destruct I].
+  refine (circ_iter_in_range (d_ccw d) n _ _ a a l (vout_in_range d W v a V) C e I).
+  intros x Hx. unfold d_ccw, e_rev. apply (dw_rev_lt d W). apply (dw_prev_lt d W). exact Hx.
+Qed.
+
+Lemma out_neighbour_in_range : forall v e, In e (Locate.out_edges_of d v) -> e_to d e < nv.
+Proof.
+  intros v e I. unfold e_to, e_rev. apply (dw_org_lt d W). apply (dw_rev_lt d W).
+  exact (out_edges_in_range v e I).
+Qed.
+
+Lemma walk_in_range_aux : forall k cur v, cur < nv -> walk pts d q k cur (dq cur) = Some v -> v < nv.
+Proof.
+  induction k as [|k IH]; intros cur v Hc E; cbn [walk] in E; [discriminate|].
+  destruct (find (fun e => (dist2 (P (e_to d e)) q <? dq cur)%Z) (Locate.out_edges_of d cur)) as [e'|] eqn:F.
+  - destruct (find_some _ _ F) as (I & _).
+    exact (IH (e_to d e') v (out_neighbour_in_range cur e' I) E).
+  - injection E as <-. exact Hc.
+Qed.
+
+Lemma walk_terminates_aux : forall k cur, cur < nv -> closer_count (dq cur) < k ->
+  walk pts d q k cur (dq cur) <> None.
+Proof.
+  induction k as [|k IH]; intros cur Hc Hk; [lia|]. cbn [walk].
+  destruct (find (fun e => (dist2 (P (e_to d e)) q <? dq cur)%Z) (Locate.out_edges_of d cur)) as [e'|] eqn:F.
+  - destruct (find_some _ _ F) as (I & L). cbv beta in L. apply Z.ltb_lt in L.
+    pose proof (out_neighbour_in_range cur e' I) as Hv.
+    apply (IH (e_to d e') Hv).
+    pose proof (closer_count_lt (e_to d e') cur Hv L). lia.
+  - discriminate.
+Qed.
+
+End Walk.
+
+Theorem walk_to_nearest_terminates : forall pts d q start,
+  DWf d -> start < Raw.num_vertices d -> walk_to_nearest pts d q start <> None.
+Proof.
+  intros pts d q start Wf Hs. apply DWf_DW in Wf. unfold walk_to_nearest.
+  destruct (pnt_eqb (vpos pts start) q); [discriminate|].
+  apply (walk_terminates_aux pts d q Wf (S (Raw.num_vertices d)) start Hs).
+  pose proof (closer_count_le pts d q (dq pts q start)). lia.
+Qed.
+
+Theorem walk_result_in_range : forall pts d q start v,
+  DWf d -> start < Raw.num_vertices d -> walk_to_nearest pts d q start = Some v -> v < Raw.num_vertices d.
+Proof.
+  intros pts d q start v Wf Hs E. apply DWf_DW in Wf. unfold walk_to_nearest in E.
+  destruct (pnt_eqb (vpos pts start) q).
+  - injection E as <-. exact Hs.
+  - exact (walk_in_range_aux pts d q Wf _ start v Hs E).
+Qed.
+
+(* with at least one vertex, the point location never fails in the walk: the validated hint is a vertex *)
+Corollary locate_with_hint_walk_ok : forall pts d q hint,
+  DWf d -> 0 < Raw.num_vertices d ->
+  exists c, c < Raw.num_vertices d /\
+    walk_to_nearest pts d q (if hint <? Raw.num_vertices d then hint else 0) = Some c /\
+    locate_with_hint pts d q hint = locate_from_closest pts d q c.
+Proof.
+  intros pts d q hint Wf Hn.
+  assert (Hs : (if hint <? Raw.num_vertices d then hint else 0) < Raw.num_vertices d).
+  { destruct (hint <? Raw.num_vertices d) eqn:L; [apply Nat.ltb_lt; exact L|exact Hn]. }
+  pose proof (walk_to_nearest_terminates pts d q _ Wf Hs) as T.
+  unfold locate_with_hint.
+  destruct (walk_to_nearest pts d q (if hint <? Raw.num_vertices d then hint else 0)) as [c|] eqn:E; [|congruence].
+  exists c. split; [|split; reflexivity].
+  exact (walk_result_in_range pts d q _ c Wf Hs E).
+Qed.
+
+Print Assumptions locate_loop_sound.
+Print Assumptions locate_from_closest_sound.
+Print Assumptions locate_with_hint_sound.
+Print Assumptions locate_result_matches_LocSpec.
+Print Assumptions locate_loop_matches_LocSpec.
+Print Assumptions walk_to_nearest_terminates.
+Print Assumptions walk_result_in_range.
+Print Assumptions walk_local_min.
